@@ -130,6 +130,9 @@ impl PartitionStorage for FilePartitionStorage {
                 tokio::fs::remove_file(&time_index_path).await.unwrap();
             }
 
+            // After an unclean stop the two files may disagree or end with a partial write.
+            Segment::reconcile_log_and_index(&log_path, &index_path, start_offset).await?;
+
             segment.load_from_disk().await.with_error_context(|error| {
                 format!("{COMPONENT} (error: {error}) - failed to load segment: {segment}",)
             })?;
